@@ -711,6 +711,9 @@ pub mod events {
             prev_wal: Option<u64>,
             next_file: Option<u64>,
             pointers: Vec<(usize, Key)>,
+            /// the sequence number written into the record (fixed before the manifest append,
+            /// during which the database mutex is released)
+            last_sequence: Option<u64>,
         },
     }
 
